@@ -74,6 +74,7 @@ def main(argv=None) -> int:
             )
         obs = []
         rules_run = []
+        rule_errors = []
         for rd in RULES.values():
             if pid not in rd.props:
                 continue
@@ -82,7 +83,12 @@ def main(argv=None) -> int:
                     rp = json.load(fp)
                 if rp.get("rule") != rd.name:
                     continue
-            ro = run_rule(ctx, rd)
+            try:
+                ro = run_rule(ctx, rd)
+            except AnalysisError as e:
+                # this rule cannot decide; the other rules still report what they find
+                rule_errors.append(f"rule {rd.name}: {e}")
+                continue
             rules_run.append(rd)
             obs += [o for o in ro if pid in o.props]
         selftest = None
@@ -158,8 +164,13 @@ def main(argv=None) -> int:
                 print(f"      {step}")
         print(f"VIOLATION property={pid} replay={rp}")
 
+    for e in rule_errors:
+        print(f"ANALYSIS-ERROR property={pid} {e}")
     wall = time.time() - t0
-    if not args.no_evidence and not args.replay and args.root is None:
+    if rule_errors and not new:
+        # cannot decide and nothing else found: never a pass, never an alarm
+        return 2
+    if not args.no_evidence and not args.replay and args.root is None and not rule_errors:
         meta = props.PROPS[pid]
         distinct = len({o.key for o in real})
         samples = []
